@@ -18,41 +18,44 @@ type Feature uint64
 
 // Step kinds. Every case is a chain of such steps from `source_i()` to `sink_i(x)`.
 const (
-	FAssign    Feature = 1 << iota // v2 := v1
-	FConcat                        // string concatenation / append of bytes
-	FConv                          // string <-> []byte, []rune round trip
-	FField                         // struct field store / load
-	FPtr                           // pointer store / load
-	FSlice                         // slice literal, index store, append, index / range load
-	FMap                           // map value put / get / range
-	FMapKey                        // taint in a map key, read back by range
-	FBox                           // interface boxing, type assertion, type switch
-	FClosure                       // closure capture (func() T), closure writing a captured variable
-	FCall                          // static call returning its argument
-	FMultiRet                      // call with several results
-	FOutParam                      // call writing through a pointer parameter
-	FMethod                        // value / pointer receiver methods
-	FIface                         // interface method call (two implementations)
-	FFuncVal                       // function values, higher-order apply, immediately applied literal
-	FGlobal                        // package-level variable relay (plain load / store)
-	FEmbed                         // embedded struct, promoted field
-	FPhi                           // merge through opaque branches cond(k) (if / switch / loop)
-	FDescend                       // continue the chain inside a callee (static, method, interface, func value)
-	FAscend                        // return the carrier to the caller and continue there
-	FVariadic                      // variadic call
-	FDefer                         // deferred closure assigning a named result; deferred call descending
-	FRecursion                     // identity self-recursion (NOT the F1 rotation shape)
-	FSanitize                      // pass through `sanitize_i` (identity at run time; for C02)
-	FGlobalAgg                     // aggregate globals (struct field / array element of a global): F4 territory
-	FCommaOk                       // comma-ok type assertion / type switch (finding C08b when the datum is call result #k, k != 0)
+	FAssign      Feature = 1 << iota // v2 := v1
+	FConcat                          // string concatenation / append of bytes
+	FConv                            // string <-> []byte, []rune round trip
+	FField                           // struct field store / load
+	FPtr                             // pointer store / load
+	FSlice                           // slice literal, index store, append, index / range load
+	FMap                             // map value put / get / range
+	FMapKey                          // taint in a map key, read back by range
+	FBox                             // interface boxing, type assertion, type switch
+	FClosure                         // closure capture (func() T), closure writing a captured variable
+	FCall                            // static call returning its argument
+	FMultiRet                        // call with several results
+	FOutParam                        // call writing through a pointer parameter
+	FMethod                          // value / pointer receiver methods
+	FIface                           // interface method call (two implementations)
+	FFuncVal                         // function values, higher-order apply, immediately applied literal
+	FGlobal                          // package-level variable relay (plain load / store)
+	FEmbed                           // embedded struct, promoted field
+	FPhi                             // merge through opaque branches cond(k) (if / switch / loop)
+	FDescend                         // continue the chain inside a callee (static, method, interface, func value)
+	FAscend                          // return the carrier to the caller and continue there
+	FVariadic                        // variadic call
+	FDefer                           // deferred closure assigning a named result; deferred call descending
+	FRecursion                       // identity self-recursion (NOT the F1 rotation shape)
+	FSanitize                        // pass through `sanitize_i` (identity at run time; for C02)
+	FGlobalAgg                       // aggregate globals (struct field / array element of a global): F4 territory
+	FCommaOk                         // comma-ok type assertion / type switch (finding C08b when the datum is call result #k, k != 0)
+	FGlobalField                     // store into a field of a global struct, read back by a function that only selects the field (on-demand: lang.FnReadsFrom)
+	FDeepSource                      // the source call sits in a helper reached through a chain of 7 call nodes and through a short one (entry-point contexts)
+	FTuple3                          // calls with three results (finding C08a before its fix)
 )
 
 // DefaultFeatures is everything except the shapes that are recorded known findings on the
-// unchanged tree or need extra configuration: recursion (F1 territory), aggregate globals (F4),
-// comma-ok assertions (C08b), sanitizers (C02).
+// current tree or need extra configuration: recursion (F1 territory), array globals (F4), sanitizers
+// (C02). Comma-ok assertions (C08b) and three-result calls (C08a) are generated since their fixes.
 const DefaultFeatures = FAssign | FConcat | FConv | FField | FPtr | FSlice | FMap | FMapKey | FBox | FClosure |
 	FCall | FMultiRet | FOutParam | FMethod | FIface | FFuncVal | FGlobal | FEmbed | FPhi | FDescend | FAscend |
-	FVariadic | FDefer
+	FVariadic | FDefer | FCommaOk | FGlobalField | FDeepSource | FTuple3
 
 // Options of Generate.
 type Options struct {
@@ -170,9 +173,9 @@ func (b *caseB) step() string {
 	t, c, ts := b.ty, b.cur, b.ts()
 	canWrap := t.Depth() < b.g.o.MaxDepth
 	deep := t.Depth() >= 2
-	uw := 3
+	uw := 9 // unwrapping steps are only applicable to one carrier kind each: weigh them up
 	if deep {
-		uw = 8
+		uw = 18
 	}
 
 	add(FAssign, "assign", 2, true, func() { v := b.v(); b.emit("%s := %s", v, c); b.set(v, t) })
@@ -253,8 +256,10 @@ func (b *caseB) step() string {
 	})
 	add(FMap, "map-load", uw, t.K == KMap, func() {
 		v := b.v()
-		if b.pick(2) == 0 {
+		if k := b.pick(3); k == 0 {
 			b.emit(`%s := %s["k"]`, v, c)
+		} else if k == 1 && b.g.has(FCommaOk) {
+			b.emit(`%s, _ := %s["k"]`, v, c)
 		} else {
 			b.emit("var %s %s", v, t.Elem.String())
 			b.emit("for _, e := range %s { %s = e }", c, v)
@@ -478,6 +483,7 @@ func (b *caseB) step() string {
 		b.set(v, t)
 	})
 	add(FGlobalAgg, "global-agg", 3, true, func() {
+		// element / field STORES into a global aggregate: missed by every configuration (finding C01f)
 		g, v, rd := b.top("g"), b.v(), b.top("rd")
 		if b.pick(2) == 0 {
 			b.decl("var %s [2]%s", g, ts)
@@ -491,6 +497,50 @@ func (b *caseB) step() string {
 			b.decl("func %s() %s { return %s.f }", rd, ts, g)
 		}
 		b.emit("%s := %s()", v, rd)
+		b.set(v, t)
+	})
+	add(FGlobalField, "global-field", 4, true, func() {
+		// whole-struct store into a global; the reader only selects the field and is not otherwise on
+		// the path of the datum: in on-demand mode its summary is built only because lang.FnReadsFrom
+		// says it reads the global (through FieldAddr)
+		gt, g, v, rd := b.top("G"), b.top("g"), b.v(), b.top("rd")
+		b.decl("type %s struct {\n\ta string\n\tf %s\n}", gt, ts)
+		b.decl("var %s %s", g, gt)
+		b.resets = append(b.resets, fmt.Sprintf("%s = %s{}", g, gt))
+		if b.pick(2) == 0 {
+			tmp := b.v()
+			b.emit("%s := %s{f: %s}", tmp, gt, c)
+			b.emit("%s = %s", g, tmp)
+		} else {
+			w := b.top("wr")
+			b.decl("func %s(s %s) { %s = s }", w, gt, g)
+			b.emit("%s(%s{f: %s})", w, gt, c)
+		}
+		b.decl("func %s() %s { return %s.f }", rd, ts, g)
+		b.emit("%s := %s()", v, rd)
+		b.set(v, t)
+	})
+	add(FCommaOk, "tuple-lookup", 3, true, func() {
+		// `_, table := load(); v, ok := table[k]`: a call result of index 1 read by a comma-ok lookup
+		h, m, a, v := b.top("h"), b.v(), b.v(), b.v()
+		b.decl(`func %s(x map[string]%s) (string, map[string]%s) { return "k", x }`, h, ts, ts)
+		b.emit(`%s := map[string]%s{"k": %s}`, m, ts, c)
+		b.emit("_, %s := %s(%s)", a, h, m)
+		b.emit(`%s, _ := %s["k"]`, v, a)
+		b.set(v, t)
+	})
+	add(FCommaOk, "tuple-assert", 3, t.K != KAny, func() {
+		// `_, e := load(); v, ok := e.(T)`: a call result of index 1 read by a comma-ok assertion (C08b)
+		h, a, v := b.top("h"), b.v(), b.v()
+		b.decl(`func %s(x any) (string, any) { return "k", x }`, h)
+		b.emit("_, %s := %s(%s)", a, h, c)
+		b.emit("%s, _ := %s.(%s)", v, a, ts)
+		b.set(v, t)
+	})
+	add(FTuple3, "multi-ret3", 2, true, func() {
+		h, v := b.top("h"), b.v()
+		b.decl(`func %s(x %s) (string, int, %s) { return "k", 1, x }`, h, ts, ts)
+		b.emit("_, _, %s := %s(%s)", v, h, c)
 		b.set(v, t)
 	})
 	add(FVariadic, "variadic", 2, true, func() {
@@ -679,7 +729,26 @@ func (g *gen) genCase(id int) (Case, string, []string) {
 	root := &frame{name: fmt.Sprintf("case_%d", id)}
 	b.frames, b.fr, b.root = []*frame{root}, root, root
 	v := b.v()
-	b.emit("%s := source_%d()", v, id)
+	if g.has(FDeepSource) && g.r.Intn(8) == 0 {
+		// entry-point contexts: fetch() holds the source call and is reached through the short chain
+		// case -> shallow -> fetch and through the long chain case -> l1 -> ... -> l5 -> fetch;
+		// only the long one leads to the sink
+		p := b.pre
+		b.decl("func %sfetch() string { return source_%d() }", p, id)
+		b.decl("func %sshallow() { _ = %sfetch() }", p, p)
+		for i := 5; i >= 1; i-- {
+			next := fmt.Sprintf("%sl%d", p, i+1)
+			if i == 5 {
+				next = p + "fetch"
+			}
+			b.decl("func %sl%d() string { return %s() }", p, i, next)
+		}
+		b.emit("%sshallow()", p)
+		b.emit("%s := %sl1()", v, p)
+		b.steps = append(b.steps, "deep-source")
+	} else {
+		b.emit("%s := source_%d()", v, id)
+	}
 	b.set(v, &Ty{K: KString})
 	n := g.o.MinSteps + g.r.Intn(g.o.MaxSteps-g.o.MinSteps+1)
 	for i := 0; i < n; i++ {
